@@ -1,4 +1,5 @@
 import SaphyrModel.Sc.KS.Final
+import SaphyrModel.Proofs.TermRun
 import SaphyrModel.Props.C02
 import SaphyrModel.Props.C07
 import SaphyrModel.Props.C11
@@ -61,13 +62,32 @@ theorem scanner_str_no_panic (cap : Nat) (text : Str) (fuel : Nat) (p : Site)
     (h : (scanAll fuel (mkSc .str cap text) []).2.1 = .panic p) : p = .fuel :=
   scanAll_str_only_fuel cap text fuel p h
 
+/-- **The pull parser terminates, with a bound linear in the number of tokens.** For every token list
+    (hence every input and back-end), latched scanner error and `keep_tags` setting: plain iteration
+    given `16·|tokens| + 3` steps ends in `None` (after StreamEnd) or in an error value. It never
+    stops at a panic site and never exhausts its steps: every step of the 22-state machine strictly
+    decreases the potential `16·|remaining tokens| + rank(state, next token) + Σ rank(waiting states)`
+    (`Proofs/Term.lean`). -/
+theorem parser_terminates (toks : List Token) (scanErr : Option ScanError) (eof : Marker) (keep : Bool)
+    (fuel : Nat) (hf : 16 * toks.length + 3 ≤ fuel) :
+    ∀ x, (iterate fuel (Api.init (PState.init toks scanErr eof keep)) []).2 ≠ some (.panic x) := by
+  have hinv : IterInv (Api.init (PState.init toks scanErr eof keep)) ⟨0, []⟩ :=
+    ⟨by simp [Api.init, PState.init, R, R'], rfl, by simp [Api.init, PState.init], by simp [Api.init]⟩
+  apply iterate_terminates fuel _ _ hinv
+  simp only [need, Api.init, Bool.false_eq_true, ↓reduceIte, phi_init]; omega
+
+/-- one step of the state machine, any state: the potential strictly decreases -/
+theorem parser_step_decreases (p : PState) (hne : p.state ≠ .end) (e : Event) (sp : Span) (p' : PState)
+    (h : parseStep p = .ok (e, sp, p')) : phi p' < phi p := by
+  have := parseStep_below p hne; rw [h] at this; exact this
+
 /-- **String input, whole pull pipeline.** For every text, `keep_tags` setting and capacity, the
     pipeline `characters → StrInput → scanner → parser iterator` reaches no panic site of the scanner,
-    of `StrInput` or of the parser: the only abnormal stop the model can exhibit is running out of
-    the fuel it was given (in the scanner run or in the iteration). -/
+    of `StrInput` or of the parser, and the parser part always finishes within its steps: the only
+    abnormal stop the model can exhibit is the scanner run exhausting its fuel. -/
 theorem pipeline_str_no_panic (cap : Nat) (keep : Bool) (text : Str) :
     (Pipeline.events .str cap keep text = none → (Pipeline.scanText .str cap text).2.1 = .panic .fuel) ∧
-    (∀ r, Pipeline.events .str cap keep text = some r → ∀ x, r.2 = some (.panic x) → x = .fuel) := by
+    (∀ r, Pipeline.events .str cap keep text = some r → ∀ x, r.2 ≠ some (.panic x)) := by
   constructor
   · intro h
     unfold Pipeline.events Pipeline.parserOf at h
@@ -82,7 +102,19 @@ theorem pipeline_str_no_panic (cap : Nat) (keep : Bool) (text : Str) :
           have := congrArg (fun x => x.2.1) hs; simpa [Pipeline.scanText] using this)
         subst this; rfl
   · intro r h
-    exact (C02.C02_end_to_end .str cap keep text r h).2.2
+    unfold Pipeline.events at h
+    cases hp : Pipeline.parserOf .str cap keep text with
+    | none => simp [hp] at h
+    | some p =>
+      simp only [hp, Option.map_some, Option.some.injEq] at h
+      subst h
+      unfold Pipeline.parserOf at hp
+      split at hp
+      · simp at hp
+      · simp only [Option.some.injEq] at hp; subst hp
+        exact parser_terminates _ _ _ _ _ (by simp [PState.init])
+      · simp only [Option.some.injEq] at hp; subst hp
+        exact parser_terminates _ _ _ _ _ (by simp [PState.init])
 
 /-- the statement is not vacuous: the six sites are exactly the ones it excludes -/
 example : StructSite .indentsPopUnwrap ∧ StructSite .insertTokenAssert ∧ StructSite .tokenNumberUnderflow ∧
